@@ -84,6 +84,10 @@ void setStuckHandler(std::function<void(const RunInfo&)> h);
 // managed threads update must not live in plain variables of the instrumented harness: the compiler
 // may legally keep a plain variable in a register across a relaxed atomic on a non-escaping object,
 // and the scheduler switches threads exactly there, so updates would be lost.
+// … and a larger array of int cells for per-task / per-set bookkeeping tables (131072 cells)
+void cellSet(int index, int value);
+int cellGet(int index);
+void cellsClear(int from, int n);
 void ghostAdd(int slot, long delta);
 long ghostGet(int slot);
 void note(const char* fmt, ...);                               // harness marker into the trace
